@@ -3,7 +3,7 @@ M1 unprotected guards never reach a retire / M2 unlink before retire on all path
 exclusively owned objects / M4 copy loop and retire loop agree.  (M5 = T1, evaluated under C07.)"""
 from collections import deque
 
-from .analysis import flow, reach, after, entry, Point, regions, back_edges, loop_blocks, cond_of, is_view, succ_points
+from .analysis import flow, reach, after, entry, Point, regions, back_edges, loop_blocks, cond_of, is_view, succ_points, value_chains
 from .anchors import anchors, callee_str, is_shared_write, is_link_load, receiver_field, is_reclaim_atomic
 from .callgraph import callgraph
 from .facts import strip_generics, op_root, op_local, place_fields
@@ -243,44 +243,6 @@ def unlink_events(body, retired_local, an):
             if klass == "value" or (pl is not None and (fl.copies_of(pl) & mine)):
                 ev[c.point] = "remove_tree_node at %s" % c.span
     return ev, tabs
-
-
-def value_chains(body, local, limit=40):
-    """def-use chains origin -> ... -> local as lists of def points (origin first).  Origins are non-view calls or arguments."""
-    fl = flow(body)
-    chains = []
-
-    def rec(l, suffix, visiting):
-        if len(chains) >= limit:
-            return
-        srcs = fl.sources(l)
-        if not srcs:
-            chains.append(suffix)
-            return
-        for kind, data, pt in srcs:
-            if kind == "copy":
-                nxt = [data]
-            elif kind in ("ref", "field", "discr"):
-                nxt = [data["local"]]
-            elif kind == "view":
-                nxt = [data[1]]
-            elif kind == "agg":
-                nxt = [op_root(o) for o in data["rv"]["ops"] if op_root(o) is not None]
-            elif kind == "arg":
-                chains.append([("arg", data)] + suffix)
-                continue
-            elif kind == "call":
-                chains.append([pt] + suffix)
-                continue
-            else:
-                continue
-            for n in nxt:
-                if (n, pt) in visiting:
-                    continue
-                rec(n, [pt] + suffix, visiting | {(n, pt)})
-
-    rec(local, [], frozenset())
-    return chains
 
 
 def realisable_without(body, chain, goal, blockers):
